@@ -329,8 +329,8 @@ def run_sweep(ctx):
     sc = scope(ctx.thorough)
     allmaps = [(sc["inner"], m) for m in maps(sc["inner"], sc["outside"], sc["maxlen"])] + sampled_maps(sc["sampled"])
     root, overlay = str(ctx.src.root), dict(ctx.src.overlay)
-    if ctx.thorough:
-        import multiprocessing as mp
+    import multiprocessing as mp
+    if (ctx.thorough or len(allmaps) > 200) and not mp.current_process().daemon and (os.cpu_count() or 1) > 1:
         nproc = min(16, os.cpu_count() or 1)
         size = max(1, len(allmaps) // (nproc * 4))
         jobs = [(root, overlay, allmaps[i:i + size], sc, i * 7) for i in range(0, len(allmaps), size)]
